@@ -113,6 +113,25 @@ CLAIMED["C06"] = (
     "Trusted: Lean kernel (+propext, Classical.choice, Quot.sound); the hand-written model; pandas reductions specified by textbook definitions over Option Rat; floating point outside the model (small-integer data, quotients within 1 ulp / 1e-9); the diamond zip of derived streams is C01's diamond_zip.",
 )
 
+CLAIMED["C02"] = (
+    "DESIGN.md section 5, C02 and section 0.2",
+    "Lean 4 theorems over per-node event-loop models of every lossless asynchronous node kind (actions: arrival, downstream completion, job completion, clock advance; invariants over every action sequence), composed through C01's edge-consistency theorem + node-group correspondences replaying the observed behaviour of the real nodes through the models + model-free differential oracle on random multi-node asynchronous pipelines against the same pipeline with the timing removed, three consumer flavours",
+    "Proof: for every interleaving, outputs are a prefix of the inputs in order, each element handed on exactly once, equal at quiescence - rate_limit and delay (Props/C13.lean), timed_window and partition with timeout (batches' concatenation; per key) (c02_window_lossless, c02_partition_lossless), zip of any arity = transpose independent of interleaving (c02_zip_transpose, c02_zip_interleaving_independent), buffer and map_async for any completion order of the user coroutines (c02_buffer_*, c02_map_async_order, when Props/AsyncBuffer.lean is present), union and all synchronous kinds by C01. Consumer flavours (Future, native coroutine, tornado coroutine) are a correspondence obligation, not a theorem.",
+    "Trusted: Lean kernel (+propext, Classical.choice, Quot.sound); hand-written models at settled granularity (interleavings inside one settle of the loop are not distinguished; see DESIGN 0.2); tornado Queue/Condition/gen.sleep semantics modelled by a few equations; CPython 3.12 asyncio internals used by the virtual loop.",
+)
+CLAIMED["C03"] = (
+    "DESIGN.md section 5, C03",
+    "Lean 4 theorems: (clause 1) on the dataflow model - the awaitables returned by an emission are exactly the tokens of the consumer invocations it started, for every graph; (bounds, no deadlock) per-node event-loop models of buffer, map_async, zip(maxsize), timed windows + deterministic differential of emit-awaitable status while consumers are completed one by one + model-free backpressure oracle on asynchronous pipelines + threaded blocking-emit sample",
+    "Proof: every kind except collect hands back the awaitables of its emissions (kinds_transparent), so r.toks = the sinkStart tokens of the run (emit_waits, emit_waits_every_graph) and the emit awaitable cannot be done before every started consumer has finished (emit_done_implies_consumers_done, emit_done_needs_every_sinkDone); a dropped element completes at once and collect is a boundary (dropped_emit_completes, collect_crosses); zip(maxsize): blocked producers are really more than maxsize ahead, every emitted tuple wakes everybody, bound maxsize (+1 buffered) for disciplined producers (c03_zip_*; the recorded finding c03_zip_admits_all_blocked is proved as the witness that the discipline hypothesis is needed); timed windows: producers wait for the previous batch and never get stuck (c03_window_*); buffer / map_async bounds and liveness in Props/AsyncBuffer.lean (map_async: parallelism+1, recorded finding).",
+    "Trusted: Lean kernel (+propext, Classical.choice, Quot.sound); the hand-written models; threaded operation (loop in a background thread) is sampled in real time, OS scheduling not modelled; two recorded findings (map_async parallelism+1, zip notify_all).",
+)
+CLAIMED["C08"] = (
+    "DESIGN.md section 5, C08",
+    "Lean 4 theorems over transition systems of timed_window / timed_window_unique / partition(n, timeout, key) with an explicit virtual clock and timer handles (invariants over every action sequence) + exact-instant correspondence of the real nodes on the virtual-time loop + model-free oracle on the (time, batch) log",
+    "Proof: every arrival is in exactly one batch in order (c08_timed_window_conservation, c08_partition_conservation per key), timed_window_unique emits the keep-first/keep-last reduction of each window (c08_timed_window_unique_conservation, _batch_spec), partitions have 1..n elements of one key, fewer than n only from the timer at first arrival + T, a timer is live for a key iff 0 < len < n, none is ever armed for n = 1 (c08_partition_size, c08_partition_timer_iff, c08_partition_no_timer_for_n1), deadlines: emission <= arrival + interval + time blocked downstream, resp. <= arrival + T (c08_timed_window_deadline, c08_partition_deadline), nothing buffered is ever overdue.",
+    "Trusted: Lean kernel (+propext, Classical.choice, Quot.sound); the hand-written model; timers fire at their due time (virtual loop; real timer lateness shifts the deadline and is not modelled); same-instant timers of different keys fire in asyncio heap order (taken from the observation).",
+)
+
 NOT_YET = {}
 
 
